@@ -160,6 +160,26 @@ def run(ctx):
     # ts_fp_update: compressionFlags present iff FASTPATH_OUTPUT_COMPRESSION_USED (bit 1 of the 2-bit compression field = header bit 7)
     for sh, fl in dsl.returned_components(P, 'core::global::ts_fp_update'):
         d = {f.key: f for f in fl}
+        uh = d.get('updateHeader')
+        present = {}
+        undecided = 0
+        for v in range(256):
+            outs = set()
+            for o in (uh.option or []) if uh is not None else []:
+                vals = [eval_int(e, {('param', 2): v, ('param', 1): v}) for e, t in o['conds']]
+                if any(x is None for x in vals):
+                    undecided += 1
+                    continue
+                if all(bool(x) == t for x, (e, t) in zip(vals, o['conds'])):
+                    outs.add((o['kind'], o.get('target')))
+            present[v] = ('SkipField', 'compressionFlags') not in outs if outs else None
+        want = {v: bool((v >> 6) & 0x2) for v in range(256)}
+        bad = [v for v in range(256) if present[v] != want[v]]
+        ctx.check(uh is not None and not undecided and not bad, 'R10.4', 'fp_update:compression_bit',
+                  'the compressionFlags byte is expected exactly when bit 7 of updateHeader (compression = FASTPATH_OUTPUT_COMPRESSION_USED) is set: decided for all 256 headers',
+                  sh.body.where(), 'ts_fp_update expects / skips the compressionFlags byte wrongly for %d of 256 update headers (e.g. 0x%02x): MS-RDPBCGR 2.2.9.1.2.1 puts '
+                  'updateCode in bits 3..0, fragmentation in bits 5..4 and compression in bits 7..6; a wrong bit makes the update sizes - and every update after it in the PDU - be misread'
+                  % (len(bad), bad[0] if bad else 0))
         sz = d.get('size')
         good = sz is not None and sz.option and [(o['kind'], o['target'], dsl.size_formula(o['size'])) for o in sz.option] == [('Size', 'updateData', ('self', 0, 1))]
         ctx.check(good, 'R10.4', 'fp_update:size', 'each fast-path update takes exactly `size` bytes of update data', sh.body.where(),
